@@ -138,9 +138,27 @@ pub fn gen(idx: u64, _tier: Tier, rng: &mut Rng) -> Scn {
             cleanup_every: 0,
         };
     }
-    let sender = gen_session(rng);
+    let mut sender = gen_session(rng);
     recv.receive_once = rng.chance(0.6);
     recv.md5_check = rng.chance(0.85);
+    if rng.chance(0.04) {
+        // a content encoding that GROWS the object across a source-block boundary: incompressible content of n x B x E
+        // bytes (minus a few), so that the transfer length needs one more block (or symbol) than the content length.
+        // Every length the packets and the FDT announce is the TRANSFER length's; no integrity check is left when the
+        // MD5 is not announced or not verified (deflate has no checksum of its own)
+        let scheme = *rng.pick(&[Scheme::RaptorQ, Scheme::RaptorQ, Scheme::Raptor, Scheme::Rs28, Scheme::NoCode]);
+        let (e, b) = (*rng.pick(&[16u16, 32, 64]), if scheme == Scheme::Raptor { rng.range(4, 8) } else { rng.range(2, 8) } as u32);
+        let n = rng.range(1, 3) as usize;
+        let o = &mut sender.objects[0];
+        o.oti = Some(OtiSpec::new(scheme, e, b, if scheme == Scheme::NoCode { 0 } else { rng.range(1, 3) as u32 }, true));
+        o.len = (n * b as usize * e as usize).saturating_sub(rng.range(0, 12) as usize).max(1);
+        o.kind = ContentKind::Random;
+        o.cenc = *rng.pick(&[CencSpec::Deflate, CencSpec::Deflate, CencSpec::Zlib, CencSpec::Gzip]);
+        o.source = SourceSpec::Buffer;
+        o.md5 = rng.chance(0.5);
+        o.target = None;
+        recv.md5_check = rng.chance(0.5);
+    }
     recv.max_objects_error = *rng.pick(&[0usize, 0, 2, 10]);
     let mut chan = ChanSpec::clean();
     chan.reorder = match rng.below(5) {
